@@ -78,10 +78,36 @@ def compare(ctx, x, nodes, hf, attrs, det):
             ctx.violation({**attrs, "fail": "decode-raised", "exc": type(ex).__name__}, {**det, "key": key, "error": repr(ex)[:200]})
             return False
         want = sub(n["id"]) if n["type"] == E.T_NODE else n["value"]
+        if n["type"] in (E.T_STRING, E.T_ARRAY) and e.is_file_object_pointer:
+            # values held in separate file objects are also reachable as a stream over the object
+            raw = n["value"].encode("utf-16-le") if n["type"] == E.T_STRING else bytes(n["value"])
+            fo = e.get_file_object()
+            off, size = e.file_object_pointer
+            if fo.open(size).read() != raw or fo.read(size) != raw or fo.open(size).read(7) != raw[:7]:
+                ctx.violation({**attrs, "fail": "file-object-stream"}, {**det, "key": key, "size": size})
+                return False
         if not same(got, want):
             ctx.violation({**attrs, "fail": "tree-mismatch"}, {**det, "key": key, "want": short(want), "got": short(got)})
             ok = False
             break
+    if ok:
+        # values held in separate file objects are also reachable as a stream over the object (every entry of the tree)
+        def walk(entry):
+            for ch in entry.children.values():
+                if ch.is_file_object_pointer:
+                    v = ch.value
+                    raw = v.encode("utf-16-le") if isinstance(v, str) else bytes(v)
+                    off, size = ch.file_object_pointer
+                    fo = ch.get_file_object()
+                    if fo.open(size).read() != raw or fo.read(size) != raw or fo.open(size).read(7) != raw[:7]:
+                        ctx.violation({**attrs, "fail": "file-object-stream"}, {**det, "key": ch.key, "size": size})
+                        return False
+                if not walk(ch):
+                    return False
+            return True
+        for e in hf.root.values():
+            if not walk(e):
+                return False
     return ok
 
 
